@@ -167,6 +167,16 @@ CHECKS["C09"] = dict(
     note="Three variables; the inner optimisation is a plan function moving the complementary variables.",
     design="4 (C09)")
 
+CHECKS["C20"] = dict(
+    text="External.tla: two-process protocol (requests, answers, two FIFOs, child life cycle, parent polling loop) with a Kill fault "
+         "action; TLC checks all interleavings for safety (death never success, user exception and stop codes propagate, success means "
+         "complete) and liveness (eventually returns, weak fairness) over a grid of fault parameters and exhibits the as-is "
+         "counterexample; crash points are replayed against real child processes through a wrapper executable (SIGKILL after the k-th "
+         "message, injected algorithm error), evaluator exceptions, budget stops, and external/in-process pairs compared by hashing "
+         "the complete evaluator traces; leftover processes are looked up in /proc.",
+    note="Quick: 3 crash points, 2 pairs (about 15 s); thorough: every crash point for three methods and 10 pairs; 60 s deadline = hang.",
+    design="4 (C20)")
+
 NOT_APPLICABLE = {}
 
 def main():
